@@ -361,7 +361,7 @@ func (b *Buffer) fromDepth(depth int, args ...goja.Value) *goja.Object {
 				for i := 0; i < length; i++ {
 					item := o.Get(strconv.Itoa(i))
 					if item != nil {
-						a[i] = byte(item.ToInteger())
+						a[i] = toUint8(item)
 					}
 				}
 				return b.fromBytes(a)
@@ -369,6 +369,16 @@ func (b *Buffer) fromDepth(depth int, args ...goja.Value) *goja.Object {
 		}
 	}
 	panic(errors.NewTypeError(b.r, errors.ErrCodeInvalidArgType, "The first argument must be of type string or an instance of Buffer, ArrayBuffer, or Array or an Array-like Object. Received %s", arg))
+}
+
+// toUint8 converts a value to a byte the way a Uint8Array element is stored: the number modulo 256, with NaN and the
+// infinities counting as 0. (Value.ToInteger() clips at the ends of int64, so anything from 2^63 up came out as 0xFF.)
+func toUint8(v goja.Value) byte {
+	f := v.ToNumber().ToFloat()
+	if f != f || math.IsInf(f, 0) {
+		return 0
+	}
+	return byte(int64(math.Mod(math.Trunc(f), 256)))
 }
 
 func (b *Buffer) from(call goja.FunctionCall) goja.Value {
@@ -435,7 +445,7 @@ func (b *Buffer) alloc(call goja.FunctionCall) goja.Value {
 		} else {
 			fill = fill.ToNumber()
 			if !goja.IsNaN(fill) && !goja.IsInfinity(fill) {
-				fillByte := byte(fill.ToInteger())
+				fillByte := toUint8(fill)
 				if fillByte != 0 {
 					for i := range buf {
 						buf[i] = fillByte
